@@ -20,6 +20,8 @@ fn main() {
         ("drive", "range") => props::range::drive(&args),
         ("replay", "xlsx_sheet") => props::xlsx_sheet::replay(&args),
         ("drive", "xlsx_sheet") => props::xlsx_sheet::drive(&args),
+        ("replay", "xlsx_strings") => props::xlsx_strings::replay(&args),
+        ("drive", "xlsx_strings") => props::xlsx_strings::drive(&args),
         ("replay", "de") => props::de::replay(&args),
         ("drive", "de") => props::de::drive(&args),
         _ => {
